@@ -60,7 +60,7 @@ theorem tie_cache :
     ∧ (cacheDelStmts =
         ["c.lock.Lock()", "delete(c.data, key)", "c.lruCache.remove(key)", "c.lock.Unlock()",
          "c.timingWheel.RemoveTimer(key)"]
-       -- or with fixes/C12-cache-del-removes-timer-under-lock.patch (the same requests, issued before the unlock)
+       -- or with fixes/not-applied/C12-cache-del-removes-timer-under-lock.patch (the same requests, issued before the unlock)
        ∨ cacheDelStmts =
         ["c.lock.Lock()", "delete(c.data, key)", "c.lruCache.remove(key)", "c.timingWheel.RemoveTimer(key)",
          "c.lock.Unlock()"])
